@@ -16,7 +16,9 @@ Record gaction := GA { ga_ctor : str; ga_fields : list pyval }.
 
 Record fmt_entry := { fe_ctor : str; fe_keyword : str; fe_fields : list (str * enc) }.
 (* _handle_<method>(self, p_0 .. p_{n-1}) : return actions.<ctor>(dec_0(p_{i0}), ...) *)
-Record parse_entry := { pe_method : str; pe_ctor : str; pe_nparams : nat; pe_args : list (nat * enc) }.
+(* pe_rest: the handler ends in *more and joins its last named parameter and the surplus ones with commas
+   (_handle_insert_namespace: a namespace URI is written verbatim and may contain commas) *)
+Record parse_entry := { pe_method : str; pe_ctor : str; pe_nparams : nat; pe_args : list (nat * enc); pe_rest : bool }.
 Record text_tables := {
   tt_sig : list (str * list str);
   tt_line_sep : str; tt_pre : str; tt_post : str; tt_field_sep : str;
@@ -99,21 +101,31 @@ Definition format (T : text_tables) (acts : list gaction) : res str :=
 
 (* ---------------- DiffParser ---------------- *)
 
-(* DiffParser._split: commas outside JSON string literals separate parameters.
+(* DiffParser._split: commas outside JSON string literals and outside the namespace part of a Clark name
+   ({uri}name at the beginning of a field: `not part[:-1].strip()`) separate parameters.
    part and parts are accumulated reversed. *)
-Fixpoint split_aux (s : str) (part : str) (in_string escaped : bool) (parts : list str) : list str :=
+Definition blankb (part : str) : bool := forallb is_space part.
+Fixpoint split_aux (s : str) (part : str) (in_clark in_string escaped : bool) (parts : list str) : list str :=
   match s with
   | [] => rev (rev part :: parts)
   | c :: r =>
-      if in_string then
-        if escaped then split_aux r (c :: part) true false parts
-        else if c =? 92 then split_aux r (c :: part) true true parts
-        else if c =? 34 then split_aux r (c :: part) false false parts
-        else split_aux r (c :: part) true false parts
-      else if c =? 44 then split_aux r [] false escaped (rev part :: parts)
-      else split_aux r (c :: part) (c =? 34) escaped parts
+      if in_clark then split_aux r (c :: part) (negb (c =? 125)) in_string escaped parts
+      else if in_string then
+        if escaped then split_aux r (c :: part) false true false parts
+        else if c =? 92 then split_aux r (c :: part) false true true parts
+        else if c =? 34 then split_aux r (c :: part) false false false parts
+        else split_aux r (c :: part) false true false parts
+      else if c =? 44 then split_aux r [] false false escaped (rev part :: parts)
+      else split_aux r (c :: part) ((c =? 123) && blankb part) (c =? 34) escaped parts
   end.
-Definition split_params (line : str) : list str := split_aux line [] false false [].
+Definition split_params (line : str) : list str := split_aux line [] false false false [].
+
+(* def h(self, p_0 .. p_{n-1}, *more): p_{n-1} stands for ",".join((p_{n-1},) + more) *)
+Definition merge_rest (n : nat) (ps : list str) : list str :=
+  match n with
+  | O => ps
+  | S m => if Nat.ltb (length ps) n then ps else firstn m ps ++ [join [44] (skipn m ps)]
+  end.
 
 Definition decode (e : enc) (s : str) : res pyval :=
   match e with
@@ -138,6 +150,7 @@ Definition make_action (T : text_tables) (line : str) : res gaction :=
       match find_parse T action with
       | None => Err EAttributeError
       | Some pe =>
+          let params := if pe_rest pe then merge_rest (pe_nparams pe) params else params in
           if negb (Nat.eqb (length params) (pe_nparams pe)) then Err ETypeError
           else bind (mapM (fun a : nat * enc => match nth_error params (fst a) with
                                                 | Some p => decode (snd a) p
